@@ -3,6 +3,8 @@ import LitexProofs.Soc.LocInv
 import LitexProofs.Soc.CmInv
 import LitexProofs.Soc.CsrBanks
 import LitexProofs.Soc.CmConstraints
+import LitexProofs.Soc.BusRaw
+import LitexProofs.Soc.AcceptedDisjoint
 /-
   C13 — SoC resource allocation never hands out overlapping or out-of-range resources.
 
@@ -262,6 +264,80 @@ theorem one_slave_per_address_partial [AutoNames ν] (aw dw sh : Nat) (ops : Lis
     (hal _ (BusH.mem_slaveRegions hn0 hr0)) (hal _ (BusH.mem_slaveRegions hn1 hr1)) hw0 hw1 hdis
 
 
+/-- Every slave is selected by exactly the addresses of its window, whichever interconnect `do_finalize` builds
+    (point-to-point: no decoder at all; shared/crossbar: `SoCRegion.decoder`): after any call history followed
+    by a successful `do_finalize`, for every slave `n` with a decoded region `r` of at least one bus word, the
+    built interconnect presents word address `a` to the slave iff byte address `a·(dw/8)` lies in
+    `[origin, origin + size_pow2)`.
+    (`_partial`: `hword` = open finding C13-decoder-subword; `hp2p` — a point-to-point bus is only exact when
+    the slave's window covers the whole address space — = open finding C06-p2p-partial-region-origin0.) -/
+theorem slave_selected_exactly_partial [AutoNames ν] (aw dw sh : Nat) (ops : List (BusOp ν))
+    (hdw : dw / 8 = 2 ^ sh) (hsh : sh ≤ aw) :
+    let s := ({ aw := aw, dw := dw } : BusH ν).run ops
+    s.finalize = .ok () → s.masters ≠ [] →
+    ∀ n r a, n ∈ s.slaves → s.regionOf n = some r → r.decode = true → dw / 8 ≤ r.p2 →
+      (s.buildsP2P = true → 2 ^ aw ≤ r.p2) → a < 2 ^ (aw - sh) →
+      (s.selects r a = true ↔ r.InWindow (a * (dw / 8))) := by
+  intro s hfin hm n r a hn hr hdec hword hp2p ha
+  have hs : s.slaves ≠ [] := List.ne_nil_of_mem hn
+  obtain ⟨haw, hdw'⟩ := BusH.run_widths ops ({ aw := aw, dw := dw } : BusH ν)
+  have e1 : (s.masters.isEmpty || s.slaves.isEmpty) = false := by
+    cases hmm : s.masters <;> cases hss : s.slaves <;> simp_all
+  have hb : s.buildsP2P = s.isP2P := by simp [BusH.buildsP2P, e1]
+  cases hp : s.isP2P with
+  | true =>
+    -- point-to-point: the only slave is `n`, its region starts at 0 and (hypothesis) covers the address space
+    have hsel : s.selects r a = true := by simp [BusH.selects, hb, hp]
+    have horg : r.origin = 0 := by
+      unfold BusH.isP2P at hp
+      match hsl : s.slaves, hn with
+      | [m], hn' =>
+        simp only [List.mem_singleton] at hn'
+        subst hn'
+        simp only [hsl] at hp
+        rw [hr] at hp
+        have := hp
+        simp at this
+        exact this.2
+      | [], hn' => cases hn'
+      | _ :: _ :: _, _ => simp [hsl] at hp
+    have hbig := hp2p (by rw [hb, hp])
+    rw [hsel]
+    simp only [true_iff]
+    unfold Region.InWindow
+    rw [horg, hdw]
+    refine ⟨Nat.zero_le _, ?_⟩
+    calc a * 2 ^ sh < 2 ^ (aw - sh) * 2 ^ sh := Nat.mul_lt_mul_of_pos_right ha (Nat.two_pow_pos sh)
+      _ = 2 ^ aw := by rw [← Nat.pow_add]; congr 1; omega
+      _ ≤ 0 + r.p2 := by omega
+  | false =>
+    have hal := (BusH.finalize_ok_aligned hfin hm hs hp).2 _ (BusH.mem_slaveRegions hn hr)
+    have : s.selects r a = decoderAccepts aw dw r a := by
+      have h1 : s.aw = aw := haw
+      have h2 : s.dw = dw := hdw'
+      simp [BusH.selects, hb, hp, h1, h2]
+    rw [this]
+    exact decoderAccepts_iff aw dw sh r a hdw hsh hdec hal hword ha
+
+/-- Non-vacuity (point-to-point with a slave covering the 12-bit toy space, and a decoding bus) and the negative
+    witness for `hp2p` (open finding C06-p2p-partial-region-origin0: one master, one slave `[0, 0x1000)` on a
+    32-bit bus is wired point-to-point, word `0x800` = byte `0x2000` outside the window reaches the slave).
+    The seeded-change scenario (a slave-less region at 0 declared first, the only slave at `0x10000000`): the
+    code as it stands builds a decoding interconnect, and word `0` does not select the slave. -/
+example :
+    let p := ({ aw := 12, dw := 32 } : BusH Nat).run
+      [.addSlave (some 1) (some { origin := some 0, size := 0x1000 }), .addMaster none]
+    let q := ({ aw := 32, dw := 32 } : BusH Nat).run
+      [.addSlave (some 1) (some { origin := some 0, size := 0x1000 }), .addMaster none]
+    let t := ({ aw := 32, dw := 32 } : BusH Nat).run
+      [.addRegion 1 { origin := some 0, size := 0x1000, linker := true },
+       .addSlave (some 2) (some { origin := some 0x10000000, size := 0x1000 }), .addMaster none]
+    p.finalize = .ok () ∧ p.buildsP2P = true ∧ p.selects ⟨0, 0x1000, true, false, true⟩ 0x3ff = true ∧
+    q.finalize = .ok () ∧ q.buildsP2P = true ∧ q.selects ⟨0, 0x1000, true, false, true⟩ 0x800 = true ∧
+      ¬ (0x800 * (32 / 8) < 0 + (⟨0, 0x1000, true, false, true⟩ : Region).p2) ∧
+    t.finalize = .ok () ∧ t.buildsP2P = false ∧ t.selects ⟨0x10000000, 0x1000, true, false, true⟩ 0 = false ∧
+      t.selects ⟨0x10000000, 0x1000, true, false, true⟩ 0x4000000 = true := by decide +kernel
+
 /-- Non-vacuity: two slaves and a master, finalize succeeds, the hypotheses hold, and each decoder accepts
     addresses of its own window. -/
 example :
@@ -289,6 +365,111 @@ example :
     (({ aw := 32, dw := 32 } : BusH Nat).run
       [.addSlave (some 1) (some { origin := some 0x800, size := 0x1000 }), .addSlave (some 2) (some { origin := some 0x4000, size := 0x1000 }),
        .addMaster (some 9)]).finalize = .error .unaligned := by decide +kernel
+
+/-! ## The state a rejected request leaves behind (`RawH`: the real object used on after a caught `SoCError`) -/
+
+/-- Full strength, code as it stands (after fix C13-rejected-region-left-registered): whatever a caller does
+    after catching `SoCError` — any history on the real, NON-rolled-back object — names stay unique across
+    `regions ∪ io_regions`, ANY two distinct non-linker regions keep disjoint decoded windows, every slave has
+    a region, and the regions of any two different slaves are window-disjoint.  No "granted only" restriction:
+    a refused request leaves no region behind. -/
+theorem rejected_ops_keep_all_slave_regions_disjoint [AutoNames ν] (aw dw : Nat) (ops : List (BusOp ν)) :
+    let s := ({ h := { aw := aw, dw := dw } } : RawH ν).run ops
+    (s.h.regions.map (·.1) ++ s.h.ioRegions.map (·.1)).Nodup ∧
+    (∀ n0 r0 n1 r1, (n0, r0) ∈ s.h.regions → (n1, r1) ∈ s.h.regions → n0 ≠ n1 →
+        r0.linker = false → r1.linker = false → WinDisjoint r0 r1) ∧
+    s.h.slaves.Nodup ∧ (∀ n ∈ s.h.slaves, n ∈ s.h.regions.map (·.1)) ∧
+    (∀ n0 n1 r0 r1, n0 ∈ s.h.slaves → n1 ∈ s.h.slaves → n0 ≠ n1 →
+        s.h.regionOf n0 = some r0 → s.h.regionOf n1 = some r1 →
+        r0.linker = false → r1.linker = false → WinDisjoint r0 r1) ∧
+    s.stale = [] := by
+  intro s
+  obtain ⟨hi, _, _, hst⟩ := RawH.run_full (s := ({ h := { aw := aw, dw := dw } } : RawH ν)) ops (BusH.inv_init aw dw)
+  have hpair : ∀ n0 r0 n1 r1, (n0, r0) ∈ s.h.regions → (n1, r1) ∈ s.h.regions → n0 ≠ n1 →
+      r0.linker = false → r1.linker = false → WinDisjoint r0 r1 := by
+    intro n0 r0 n1 r1 h0 h1 hne l0 l1
+    exact (winDisjoint_iff r0 r1 l0 l1).1 (BusH.regions_pair_ok hi h0 h1 hne)
+  refine ⟨hi.names_nodup, hpair, hi.slaves_nodup, hi.slaves_have, ?_, hst⟩
+  intro n0 n1 r0 r1 _ _ hne h0 h1 l0 l1
+  exact hpair n0 r0 n1 r1 (BusH.regionOf_some h0) (BusH.regionOf_some h1) hne l0 l1
+
+/-- And no address selects two slaves on the non-rolled-back object either: after any history with caught
+    rejections followed by a successful `do_finalize`, two different slaves with non-linker regions of at least
+    one bus word never both decode the same word address (`_partial`: `hw0 hw1`, C13-decoder-subword). -/
+theorem rejected_ops_one_slave_per_address_partial [AutoNames ν] (aw dw sh : Nat) (ops : List (BusOp ν))
+    (hdw : dw / 8 = 2 ^ sh) (hsh : sh ≤ aw) :
+    let s := (({ h := { aw := aw, dw := dw } } : RawH ν).run ops).h
+    s.finalize = .ok () → s.masters ≠ [] →
+    ∀ n0 n1 r0 r1 a, n0 ∈ s.slaves → n1 ∈ s.slaves → n0 ≠ n1 →
+      s.regionOf n0 = some r0 → s.regionOf n1 = some r1 → r0.linker = false → r1.linker = false →
+      dw / 8 ≤ r0.p2 → dw / 8 ≤ r1.p2 → a < 2 ^ (aw - sh) →
+      ¬ (decoderAccepts aw dw r0 a = true ∧ decoderAccepts aw dw r1 a = true) := by
+  intro s hfin hm n0 n1 r0 r1 a hn0 hn1 hne hr0 hr1 hl0 hl1 hw0 hw1 ha
+  obtain ⟨hi, _, _, _⟩ := RawH.run_full (s := ({ h := { aw := aw, dw := dw } } : RawH ν)) ops (BusH.inv_init aw dw)
+  have hs : s.slaves ≠ [] := List.ne_nil_of_mem hn0
+  have hlen : 2 ≤ s.slaves.length := BusH.two_le_length_of_mem_ne hn0 hn1 hne
+  have hp : s.isP2P = false := by
+    unfold BusH.isP2P
+    have : (s.slaves.length == 1) = false := by simp; omega
+    simp [this]
+  obtain ⟨hdec, hal⟩ := BusH.finalize_ok_aligned hfin hm hs hp
+  have m0 := BusH.regionOf_some hr0
+  have m1 := BusH.regionOf_some hr1
+  have hlen2 : 2 ≤ s.regions.length := BusH.two_le_length_of_mem_ne m0 m1 (fun e => hne (congrArg Prod.fst e))
+  have hall : ∀ p ∈ s.regions, p.2.decode = true := by
+    have : s.regions.any (fun p => !p.2.decode) = false := by
+      have hd : decide (s.regions.length > 1) = true := by simp; omega
+      simpa [hd] using hdec
+    intro p hp
+    have := List.any_eq_false.1 this p hp
+    simpa using this
+  have hdis : WinDisjoint r0 r1 := (winDisjoint_iff r0 r1 hl0 hl1).1 (BusH.regions_pair_ok hi m0 m1 hne)
+  exact decoders_disjoint aw dw sh r0 r1 a hdw hsh ha (hall _ m0) (hall _ m1)
+    (hal _ (BusH.mem_slaveRegions hn0 hr0)) (hal _ (BusH.mem_slaveRegions hn1 hr1)) hw0 hw1 hdis
+
+/-- The method BEFORE the fix (`RawH.stepPreFix`: a fixed-origin region / IO region refused for overlap stayed
+    in its dictionary): names stayed unique, and only the regions that were actually GRANTED (not left behind by
+    a refusal, ghost list `stale`) kept disjoint decoded windows. -/
+theorem rejected_ops_keep_granted_regions_disjoint [AutoNames ν] (aw dw : Nat) (ops : List (BusOp ν)) :
+    let s := ({ h := { aw := aw, dw := dw } } : RawH ν).runPreFix ops
+    (s.h.regions.map (·.1) ++ s.h.ioRegions.map (·.1)).Nodup ∧
+    ∀ n0 r0 n1 r1, (n0, r0) ∈ s.h.regions → (n1, r1) ∈ s.h.regions → n0 ≠ n1 → n0 ∉ s.stale → n1 ∉ s.stale →
+      r0.linker = false → r1.linker = false → WinDisjoint r0 r1 := by
+  intro s
+  have hi : RawH.Inv s := RawH.runPreFix_inv ops (RawH.inv_init aw dw)
+  refine ⟨hi.names_nodup, ?_⟩
+  intro n0 r0 n1 r1 h0 h1 hne s0 s1 l0 l1
+  exact (winDisjoint_iff r0 r1 l0 l1).1 (hi.live_ok _ h0 _ h1 hne s0 s1)
+
+/-- As long as nothing is refused, the real object and the transactional model `BusH.run` (about which all the
+    theorems above speak) are the same, and nothing is stale. -/
+theorem raw_eq_transactional_when_nothing_refused [AutoNames ν] (aw dw : Nat) (ops : List (BusOp ν))
+    (hok : ∀ v ∈ ({ h := { aw := aw, dw := dw } } : RawH ν).verdicts ops, v = none) :
+    (({ h := { aw := aw, dw := dw } } : RawH ν).run ops).h = ({ aw := aw, dw := dw } : BusH ν).run ops ∧
+    (({ h := { aw := aw, dw := dw } } : RawH ν).run ops).stale = [] :=
+  RawH.run_eq_of_all_ok _ ops hok
+
+/-- Fixed finding C13-rejected-region-left-registered, negative witness of the PRE-FIX method and non-vacuity of
+    the fixed one.  `add_slave("r2", region [0x1000,+0x1000))` is refused (overlaps `r1` = `[0,+0x2000)`).
+    Pre-fix: its region stayed in `bus.regions`; `add_slave("r2")` then found it, `do_finalize` succeeded (both
+    origins are aligned) and word `0x400` selected both slaves — the full-strength statement was false.
+    Code as it stands: nothing is left behind, the third call is refused ("Region not found") exactly as in the
+    transactional model, and only `r1` is a slave. -/
+example :
+    let ops : List (BusOp Nat) :=
+      [.addSlave (some 1) (some { origin := some 0, size := 0x2000 }),
+       .addSlave (some 2) (some { origin := some 0x1000, size := 0x1000 }),
+       .addSlave (some 2) none, .addMaster none]
+    let s := ({ h := { aw := 32, dw := 32 } } : RawH Nat).runPreFix ops
+    let t := ({ h := { aw := 32, dw := 32 } } : RawH Nat).run ops
+    ({ h := { aw := 32, dw := 32 } } : RawH Nat).verdictsPreFix ops = [none, some .overlap, none, none] ∧
+    s.stale = [2] ∧ s.h.slaves = [1, 2] ∧ s.h.finalize = .ok () ∧
+    s.h.regionOf 1 = some ⟨0, 0x2000, true, false, true⟩ ∧ s.h.regionOf 2 = some ⟨0x1000, 0x1000, true, false, true⟩ ∧
+    s.h.selects ⟨0, 0x2000, true, false, true⟩ 0x400 = true ∧ s.h.selects ⟨0x1000, 0x1000, true, false, true⟩ 0x400 = true ∧
+    ({ h := { aw := 32, dw := 32 } } : RawH Nat).verdicts ops = [none, some .overlap, some .noRegion, none] ∧
+    t.h.slaves = [1] ∧ t.h.regions = [(1, ⟨0, 0x2000, true, false, true⟩)] ∧ t.stale = [] ∧
+    ({ aw := 32, dw := 32 } : BusH Nat).verdicts ops = [none, some .overlap, some .noRegion, none] := by
+  decide +kernel
 
 /-! ## CSR pages and interrupt numbers -/
 
@@ -486,6 +667,24 @@ theorem cm_constraints_once (io : List Res) (ops : List CmOp)
   refine Cm.sigConstraints_nodup _ (cm_granted_once io ops hnd).1 ?_
   intro r hr
   exact hsubs r (hp.subset (List.mem_append_right _ hr))
+
+/-- No two live requests share a pin: whatever pins the IO table assigns to its (entry, subsignal) signals, if
+    different signals of the table have disjoint pin sets, then after any request/lookup/extension history the
+    constraints emitted by `get_sig_constraints` for two different granted signals never mention a common pin. -/
+theorem cm_no_shared_pin (io : List Res) (ops : List CmOp) (pins : Nat × Option Nat → List Nat)
+    (hnd : ((io ++ Cm.extensions ops).map (·.uid)).Nodup) (hsubs : ∀ r ∈ io ++ Cm.extensions ops, r.subs.Nodup)
+    (hpins : ∀ k1 k2 : Nat × Option Nat, k1 ≠ k2 → ∀ p, ¬ (p ∈ pins k1 ∧ p ∈ pins k2)) :
+    (({ available := io } : Cm).run ops).sigConstraints.Pairwise (fun k1 k2 => ∀ p, ¬ (p ∈ pins k1 ∧ p ∈ pins k2)) := by
+  have hn : (({ available := io } : Cm).run ops).sigConstraints.Nodup := by
+    have hp := (Cm.run_perm { available := io } ops)
+    have hp' : ((({ available := io } : Cm).run ops).available ++ (({ available := io } : Cm).run ops).matched).Perm
+        (io ++ Cm.extensions ops) := by simpa using hp
+    have hn0 := (hp'.map (·.uid)).nodup_iff.2 hnd
+    rw [List.map_append, List.nodup_append] at hn0
+    refine Cm.sigConstraints_nodup _ hn0.2.1 ?_
+    intro r hr
+    exact hsubs r (hp'.subset (List.mem_append_right _ hr))
+  exact hn.imp (fun {a b} hab => hpins a b hab)
 
 /-- Non-vacuity: a table with a duplicate-free `led` bank and a record resource; double requests fail, the
     loose one returns nothing, `request_all` takes what is left, lookups see only granted entries. -/
